@@ -187,6 +187,8 @@ package rules
 //@   ensures forall i int :: 0 <= i && i < len(res0) ==> netWanted(res0[i], ipVersion) && !(isNegated && netCatchAll(res0[i], ipVersion))
 //@   ensures len(mixedCIDRs) > 0 ==> (res1 ==> len(res0) == 0)
 //@   ensures len(mixedCIDRs) > 0 && !res1 ==> len(res0) > 0
+//@   ensures len(res0) > 0 ==> fresh(res0)
+//@   assigns nothing
 //@   loop 1 invariant -1 <= rangeindex && rangeindex < len(mixedCIDRs) && len(mixedCIDRs) > 0 && wantV6 == (ipVersion == 6) && filteredAll == (len(filtered) == 0) && len(filtered) <= cap(filtered) && (cap(filtered) > 0 ==> fresh(filtered))
 //@   loop 1 invariant forall i int :: 0 <= i && i < len(filtered) ==> netWanted(filtered[i], ipVersion) && !(isNegated && netCatchAll(filtered[i], ipVersion))
 
@@ -217,3 +219,16 @@ package rules
 //@   requires g != nil
 //@   ensures res == (exists i int :: 0 <= i && i < len(g.Policies) && !kindStaged(g.Policies[i].Kind))
 //@   loop 1 invariant -1 <= rangeindex && rangeindex < len(g.Policies) && (forall i int :: 0 <= i && i <= rangeindex ==> kindStaged(g.Policies[i].Kind))
+
+//@ -- A rule scoped to one IP version is rendered for that version only; the copy rendered for a version carries
+//@ -- only CIDRs of that version.
+//@ func FilterRuleToIPVersion
+//@   property C08
+//@   option safety off
+//@   option stable (*proto.Rule).IpVersion
+//@   requires pRule != nil
+//@   ensures old(pRule.IpVersion) != 0 && int32(old(pRule.IpVersion)) != int32(ipVersion) ==> res == nil
+//@   ensures res != nil ==> (forall i int :: 0 <= i && i < len(res.SrcNet) ==> netWanted(res.SrcNet[i], ipVersion))
+//@   ensures res != nil ==> (forall i int :: 0 <= i && i < len(res.DstNet) ==> netWanted(res.DstNet[i], ipVersion))
+//@   ensures res != nil ==> (forall i int :: 0 <= i && i < len(res.NotSrcNet) ==> netWanted(res.NotSrcNet[i], ipVersion) && !netCatchAll(res.NotSrcNet[i], ipVersion))
+//@   ensures res != nil ==> (forall i int :: 0 <= i && i < len(res.NotDstNet) ==> netWanted(res.NotDstNet[i], ipVersion) && !netCatchAll(res.NotDstNet[i], ipVersion))
